@@ -194,6 +194,7 @@ pub fn v9_reps() -> Vec<FieldSpec> {
         fs(90, 0),  // vec 0
         fs(95, 3),  // vec 3
         fs(300, 1), // unknown 1
+        fs(600, 0), // unknown 0 (zero-length field of a type the library does not know)
         fs(43, 7),  // vendor/unknown 7
     ]
 }
@@ -221,6 +222,7 @@ pub fn ipfix_reps() -> Vec<FieldSpec> {
         fs(82, 5),      // string 5
         fs(82, 65535),  // string varlen
         fs(600, 3),     // unknown 3
+        fs(601, 0),     // unknown 0
         fs(600, 65535), // unknown varlen
         fse(12, 4, 9),      // enterprise fixed
         fse(12, 65535, 9),  // enterprise varlen
